@@ -37,8 +37,11 @@ def gen_row_opts(rng, lo):
             o['burst_kwargs'] = bk
     else:
         o['threshold_kwargs'] = gen.gen_thresholds_cycles(rng, full=rng.random() < 0.6)
-    if rng.random() < 0.3:
-        o['find_extrema_kwargs'] = {'filter_kwargs': {'n_cycles': int(rng.choice([2, 3, 5]))}, 'boundary': int(rng.choice([0, 3]))}
+    if rng.random() < 0.35:
+        fek = gen.gen_find_extrema_kwargs(rng, 250., lo, allow_none=False)       # with / without 'filter_kwargs', boundary, pad
+        if fek.get('boundary', 0) > 12:
+            fek['boundary'] = 12
+        o['find_extrema_kwargs'] = fek
     if rng.random() < 0.25:
         o['return_samples'] = bool(rng.random() < 0.5)         # documented to be ignored
     return o
